@@ -640,6 +640,296 @@ theorem C20_urls (p : Policy) (hp : Plain p.ensureInit) (hs : UrlSimple p.ensure
     p.sanitizeCore (p.sanitizeCore input) = p.sanitizeCore input :=
   C20_fix p hp (attrFix_of_url _ hs) input
 
+/-! ### link options, when the rules let neither rel nor target through -/
+
+/-- `UrlSimple` with link options allowed, for policies whose rules accept no `rel` and no `target`
+    attribute on the elements the options apply to: what the options add is stripped by the second pass
+    and added again, identically -/
+structure LinkSimple (p : Policy) : Prop where
+  noStyle : ∀ el, p.hasStylePolicies el = false
+  noCross : p.requireCrossOriginAnonymous = false
+  noSandbox : p.requireSandboxOnIFrame = none
+  noRewriter : p.srcRewriter = none
+  blind : ∀ el aps, p.attrRulesFor el = some aps → ∀ k v v', (k = b!"href" ∨ k = b!"cite" ∨ k = b!"src") →
+    (p.filterAttr el aps false ⟨k, v⟩).isSome = (p.filterAttr el aps false ⟨k, v'⟩).isSome
+  stable : ∀ v v', p.validURL v = some v' → p.validURL v' = some v'
+  noRelTarget : ∀ el aps, p.attrRulesFor el = some aps → isHrefElement el = true → ∀ v,
+    (p.filterAttr el aps false ⟨b!"rel", v⟩).isSome = false ∧ (p.filterAttr el aps false ⟨b!"target", v⟩).isSome = false
+
+def isRelOrTarget (a : Attr) : Bool := a.key == b!"rel" || a.key == b!"target"
+
+theorem map_relFix_noRel (nf nr : Bool) (u : List Attr) (h : ∀ a ∈ u, isRelOrTarget a = false) :
+    u.map (relFix nf nr) = u := by
+  induction u with
+  | nil => rfl
+  | cons a as ih =>
+    have ha := h a (by simp)
+    simp only [isRelOrTarget, Bool.or_eq_false_iff] at ha
+    simp only [List.map_cons, relFix, ha.1, Bool.false_and, Bool.false_eq_true, ↓reduceIte]
+    rw [ih (fun x hx => h x (by simp [hx]))]
+
+theorem fixFirstTarget_noTarget (u : List Attr) (h : ∀ a ∈ u, isRelOrTarget a = false) : fixFirstTarget u = u := by
+  induction u with
+  | nil => rfl
+  | cons a as ih =>
+    have ha := h a (by simp)
+    simp only [isRelOrTarget, Bool.or_eq_false_iff] at ha
+    simp only [fixFirstTarget, ha.2, Bool.false_eq_true, ↓reduceIte]
+    rw [ih (fun x hx => h x (by simp [hx]))]
+
+theorem any_key_false (u : List Attr) (k : Bytes) (hk : k = b!"rel" ∨ k = b!"target")
+    (h : ∀ a ∈ u, isRelOrTarget a = false) : u.any (·.key == k) = false := by
+  rw [List.any_eq_false]
+  intro a ha
+  have := h a ha
+  simp only [isRelOrTarget, Bool.or_eq_false_iff] at this
+  rcases hk with rfl | rfl
+  · simp [this.1]
+  · simp [this.2]
+
+/-- the hardening block once the three decisions are taken -/
+def hardenCore (isA nf nr tb : Bool) (clean : List Attr) : List Attr :=
+  let hasRel := clean.any (·.key == b!"rel")
+  let hasTarget := clean.any (·.key == b!"target")
+  let out := clean.map (relFix nf nr)
+  let out := if isA && tb then fixFirstTarget out else out
+  let out := if (nf || nr) && !hasRel then out ++ [⟨b!"rel", newRelValue nf nr⟩] else out
+  let blankFound := isA &&
+    ((clean.any fun a => a.key == b!"target" && asciiEqualFold a.val b!"_blank") || (tb && hasTarget))
+  let out := if isA && tb && !blankFound then out ++ [⟨b!"target", b!"_blank"⟩] else out
+  if blankFound || (isA && tb) then addNoOpener out else out
+
+theorem hardenLinks_core (p : Policy) (el : Bytes) (clean : List Attr) :
+    p.hardenLinks el clean =
+      (let hrefs := clean.filter (·.key == b!"href")
+       let ext := hrefs.any fun a => match Url.parse a.val with
+         | some u => !u.host.isEmpty
+         | none => false
+       if hrefs.isEmpty then clean
+       else hardenCore (el == b!"a") (p.requireNoFollow || (ext && p.requireNoFollowFullyQualifiedLinks))
+         (p.requireNoReferrer || (ext && p.requireNoReferrerFullyQualifiedLinks))
+         (ext && p.addTargetBlankToFullyQualifiedLinks) clean) := rfl
+
+/-- what the hardening block appends when there is neither a `rel` nor a `target` attribute -/
+def hardenExtra (isA nf nr tb : Bool) : List Attr :=
+  let tgtE : List Attr := if isA && tb then [⟨b!"target", b!"_blank"⟩] else []
+  if isA && tb then
+    (if nf || nr then [⟨b!"rel", addRelToken true b!"noopener" (newRelValue nf nr)⟩] ++ tgtE
+     else tgtE ++ [⟨b!"rel", b!"noopener"⟩])
+  else (if nf || nr then [⟨b!"rel", newRelValue nf nr⟩] else []) ++ tgtE
+
+theorem hardenExtra_keys (isA nf nr tb : Bool) : ∀ a ∈ hardenExtra isA nf nr tb, isRelOrTarget a = true := by
+  cases isA <;> cases nf <;> cases nr <;> cases tb <;> simp [hardenExtra, isRelOrTarget]
+
+/-- with no `rel` and no `target` among the attributes, the hardening block only appends `rel` / `target` -/
+theorem hardenCore_appends (isA nf nr tb : Bool) (u : List Attr) (h : ∀ a ∈ u, isRelOrTarget a = false) :
+    hardenCore isA nf nr tb u = u ++ hardenExtra isA nf nr tb := by
+  have hrel := any_key_false u b!"rel" (.inl rfl) h
+  have htgt := any_key_false u b!"target" (.inr rfl) h
+  have htgt2 : (u.any fun a => a.key == b!"target" && asciiEqualFold a.val b!"_blank") = false := by
+    rw [List.any_eq_false]
+    intro a ha
+    have := h a ha
+    simp only [isRelOrTarget, Bool.or_eq_false_iff] at this
+    simp [this.2]
+  have hmapid : ∀ (g : Attr → Attr), (∀ a, a.key ≠ b!"rel" → g a = a) → u.map g = u := by
+    intro g hg
+    have : ∀ l : List Attr, (∀ a ∈ l, isRelOrTarget a = false) → l.map g = l := by
+      intro l
+      induction l with
+      | nil => intro _; rfl
+      | cons a as ih =>
+        intro hl
+        have ha := hl a (by simp)
+        simp only [isRelOrTarget, Bool.or_eq_false_iff] at ha
+        rw [List.map_cons, hg a (by simpa using ha.1), ih (fun x hx => hl x (by simp [hx]))]
+    exact this u h
+  unfold hardenCore
+  simp only [map_relFix_noRel _ _ u h, fixFirstTarget_noTarget u h, hrel, htgt, htgt2]
+  cases isA <;> cases nf <;> cases nr <;> cases tb <;>
+    simp [hardenExtra, addNoOpener, hrel]
+  all_goals (apply hmapid; intro a ha; simp [ha])
+
+theorem hardenLinks_appends (p : Policy) (el : Bytes) (u : List Attr) (h : ∀ a ∈ u, isRelOrTarget a = false) :
+    ∃ E, p.hardenLinks el u = u ++ E ∧ ∀ a ∈ E, isRelOrTarget a = true := by
+  rw [hardenLinks_core]
+  simp only
+  split
+  · exact ⟨[], by simp, by simp⟩
+  · exact ⟨_, hardenCore_appends _ _ _ _ u h, hardenExtra_keys _ _ _ _⟩
+
+theorem link_sanitizeAttrs (p : Policy) (hs : LinkSimple p) (el : Bytes) (attrs : List Attr) (aps : AttrRules) :
+    p.sanitizeAttrs el attrs aps =
+      (let c := attrs.filter fun a => (p.filterAttr el aps false a).isSome
+       if c.isEmpty then some c else p.linkPasses el c) := by
+  unfold Policy.sanitizeAttrs
+  split
+  · rename_i h; simp [List.isEmpty_iff.mp h]
+  · simp only [hs.noStyle el, filterMap_eq_filter]
+    split
+    · rename_i h; simp [h]
+    · rename_i h
+      unfold Policy.forceSandbox Policy.forceCrossOrigin
+      simp only [hs.noCross, hs.noSandbox, Bool.false_and, Bool.false_eq_true, ↓reduceIte, h]
+      cases p.linkPasses el (List.filter (fun a => (p.filterAttr el aps false a).isSome) attrs) <;> rfl
+
+/-- the URL pass as `UrlSimple` sees it, from the fields `LinkSimple` shares with it -/
+theorem LinkSimple.urlFix {p : Policy} (hs : LinkSimple p) (el : Bytes) (a b : Attr)
+    (h : p.urlPassAttr el a = some (some b)) :
+    p.urlPassAttr el b = some (some b) ∧ b.key = a.key ∧
+      (b = a ∨ ((a.key = b!"href" ∨ a.key = b!"cite" ∨ a.key = b!"src") ∧ p.validURL a.val = some b.val)) := by
+  rw [urlPassAttr_eq p hs.noRewriter] at h ⊢
+  split at h
+  · rename_i k hk
+    split at h
+    · rename_i hak
+      have hak' : a.key = k := by simpa using hak
+      simp only [Option.some.injEq, Option.map_eq_some_iff] at h
+      obtain ⟨u, hu, rfl⟩ := h
+      refine ⟨?_, rfl, .inr ⟨by rw [hak']; exact urlKeyFor_mem el k hk, hu⟩⟩
+      simp only [hak, ↓reduceIte, hs.stable _ _ hu, Option.map_some]
+    · simp only [Option.some.injEq] at h; subst h
+      rename_i hak
+      refine ⟨?_, rfl, .inl rfl⟩
+      simp only [hak, Bool.false_eq_true, ↓reduceIte]
+  · simp only [Option.some.injEq] at h; subst h
+    exact ⟨rfl, rfl, .inl rfl⟩
+
+/-- **link options re-derive what they added**, under a `LinkSimple` policy -/
+theorem link_sanitizeAttrs_idem (p : Policy) (hs : LinkSimple p) (el : Bytes) (attrs out : List Attr) (aps : AttrRules)
+    (haps : p.attrRulesFor el = some aps) (h : p.sanitizeAttrs el attrs aps = some out) :
+    p.sanitizeAttrs el out aps = some out := by
+  rw [link_sanitizeAttrs p hs] at h ⊢
+  simp only at h ⊢
+  generalize hacc : (fun a => (p.filterAttr el aps false a).isSome) = acc at h ⊢
+  generalize hc : attrs.filter acc = c at h
+  have hcacc : ∀ a ∈ c, acc a = true := by
+    intro a ha; rw [← hc] at ha; exact (List.mem_filter.mp ha).2
+  have hblind : ∀ k v v', (k = b!"href" ∨ k = b!"cite" ∨ k = b!"src") → acc ⟨k, v⟩ = acc ⟨k, v'⟩ := by
+    intro k v v' hk; rw [← hacc]; exact hs.blind el aps haps k v v' hk
+  by_cases hce : c.isEmpty = true
+  · simp only [hce, ↓reduceIte, Option.some.injEq] at h
+    subst h
+    have : c = [] := List.isEmpty_iff.mp hce
+    subst this
+    rfl
+  · simp only [hce, Bool.false_eq_true, ↓reduceIte] at h
+    unfold Policy.linkPasses at h
+    by_cases hl : linkable el = true
+    · simp only [hl, ↓reduceIte] at h
+      -- after the URL pass
+      obtain ⟨u, hu, hout⟩ : ∃ u, (if p.requireParseableURLs = true then mapMOpt (p.urlPassAttr el) c else some c) = some u ∧
+          out = (if (p.requireNoFollow || p.requireNoFollowFullyQualifiedLinks || p.requireNoReferrer ||
+              p.requireNoReferrerFullyQualifiedLinks || p.addTargetBlankToFullyQualifiedLinks) &&
+              decide (u.length > 0) && isHrefElement el then p.hardenLinks el u else u) := by
+        cases hm : (if p.requireParseableURLs = true then mapMOpt (p.urlPassAttr el) c else some c) with
+        | none => rw [hm] at h; simp at h
+        | some u => rw [hm] at h; simp only [Option.map_some, Option.some.injEq] at h; exact ⟨u, rfl, h.symm⟩
+      -- what the URL pass returned is accepted by the rules and is a fixed point of the URL pass
+      have huacc : ∀ b ∈ u, acc b = true := by
+        intro b hb
+        by_cases hrp : p.requireParseableURLs = true
+        · simp only [hrp, ↓reduceIte] at hu
+          obtain ⟨a, ha, hfa⟩ := mapMOpt_mem _ c u hu b hb
+          obtain ⟨_, hk, hor⟩ := hs.urlFix el a b hfa
+          rcases hor with rfl | ⟨hkey, _⟩
+          · exact hcacc _ ha
+          · have := hblind a.key a.val b.val hkey
+            have hb' : b = ⟨a.key, b.val⟩ := by cases b; simp_all
+            rw [hb', ← this]
+            exact hcacc a ha
+        · simp only [hrp, Bool.false_eq_true, ↓reduceIte, Option.some.injEq] at hu
+          subst hu; exact hcacc b hb
+      have hufix : (if p.requireParseableURLs = true then mapMOpt (p.urlPassAttr el) u else some u) = some u := by
+        by_cases hrp : p.requireParseableURLs = true
+        · simp only [hrp, ↓reduceIte] at hu ⊢
+          exact mapMOpt_fix _ (fun a b hab => (hs.urlFix el a b hab).1) c u hu
+        · simp only [hrp, Bool.false_eq_true, ↓reduceIte]
+      have hfu : u.filter acc = u := List.filter_eq_self.mpr huacc
+      by_cases hcond : ((p.requireNoFollow || p.requireNoFollowFullyQualifiedLinks || p.requireNoReferrer ||
+          p.requireNoReferrerFullyQualifiedLinks || p.addTargetBlankToFullyQualifiedLinks) &&
+          decide (u.length > 0) && isHrefElement el) = true
+      · -- hardening ran: it appended rel / target, which the rules strip again
+        simp only [hcond, ↓reduceIte] at hout
+        have hhref : isHrefElement el = true := by simp only [Bool.and_eq_true] at hcond; exact hcond.2
+        have hupos : u.length > 0 := by simp only [Bool.and_eq_true, decide_eq_true_eq] at hcond; exact hcond.1.2
+        have hnoacc : ∀ v, acc ⟨b!"rel", v⟩ = false ∧ acc ⟨b!"target", v⟩ = false := by
+          intro v
+          have := hs.noRelTarget el aps haps hhref v
+          rw [← hacc]
+          exact this
+        have hnrt : ∀ a ∈ u, isRelOrTarget a = false := by
+          intro a ha
+          have hacc_a := huacc a ha
+          unfold isRelOrTarget
+          rcases hrel : (a.key == b!"rel") with _ | _
+          · rcases htg : (a.key == b!"target") with _ | _
+            · rfl
+            · have : a = ⟨b!"target", a.val⟩ := by cases a; simp_all
+              rw [this, (hnoacc a.val).2] at hacc_a; cases hacc_a
+          · have : a = ⟨b!"rel", a.val⟩ := by cases a; simp_all
+            rw [this, (hnoacc a.val).1] at hacc_a; cases hacc_a
+        obtain ⟨E, hE, hEk⟩ := hardenLinks_appends p el u hnrt
+        rw [hE] at hout
+        have hfE : E.filter acc = [] := by
+          rw [List.filter_eq_nil_iff]
+          intro a ha
+          have hk := hEk a ha
+          unfold isRelOrTarget at hk
+          simp only [Bool.or_eq_true, beq_iff_eq] at hk
+          rcases hk with hk | hk
+          · have : a = ⟨b!"rel", a.val⟩ := by cases a; simp_all
+            rw [this, (hnoacc a.val).1]; simp
+          · have : a = ⟨b!"target", a.val⟩ := by cases a; simp_all
+            rw [this, (hnoacc a.val).2]; simp
+        subst hout
+        rw [List.filter_append, hfu, hfE, List.append_nil]
+        have hune : u.isEmpty = false := by
+          cases u with
+          | nil => simp at hupos
+          | cons _ _ => rfl
+        simp only [hune, Bool.false_eq_true, ↓reduceIte]
+        unfold Policy.linkPasses
+        simp only [hl, ↓reduceIte, hufix, Option.map_some, hcond, hE]
+      · -- no hardening: the URL pass alone
+        simp only [hcond, Bool.false_eq_true, ↓reduceIte] at hout
+        subst hout
+        rw [hfu]
+        by_cases hue : out.isEmpty = true
+        · simp only [hue, ↓reduceIte]
+        · simp only [hue, Bool.false_eq_true, ↓reduceIte]
+          unfold Policy.linkPasses
+          simp only [hl, ↓reduceIte, hufix, Option.map_some, hcond, Bool.false_eq_true]
+    · have hl' : linkable el = false := by simpa using hl
+      simp only [hl', Bool.false_eq_true, ↓reduceIte, Option.some.injEq] at h
+      subst h
+      have hfc : c.filter acc = c := List.filter_eq_self.mpr hcacc
+      rw [hfc]
+      simp only [hce, Bool.false_eq_true, ↓reduceIte]
+      unfold Policy.linkPasses
+      simp only [hl', Bool.false_eq_true, ↓reduceIte]
+
+theorem attrFix_of_link (p : Policy) (hs : LinkSimple p) : AttrFix p := by
+  intro t aps attrs _ haps h
+  unfold Policy.cleanAttrs at h ⊢
+  split at h
+  · simp at h; subst h; simp_all
+  · simp only
+    split
+    · rename_i he
+      have : attrs = [] := List.isEmpty_iff.mp he
+      subst this; rfl
+    · exact link_sanitizeAttrs_idem p hs t.data t.attrs attrs aps haps h
+
+/-- **C20, policies with link options** whose rules let neither `rel` nor `target` through on a, area, base,
+    link: sanitising twice is sanitising once for every input — the `rel` tokens and the `target` the
+    options add are stripped by the second pass and added again identically — provided URL normalisation
+    is stable.  (When the rules let exactly one of the two through, the order of the attributes changes
+    on the second pass: the known finding `forced-attr-order`.) -/
+theorem C20_links (p : Policy) (hp : Plain p.ensureInit) (hs : LinkSimple p.ensureInit) (input : Bytes) :
+    p.sanitizeCore (p.sanitizeCore input) = p.sanitizeCore input :=
+  C20_fix p hp (attrFix_of_link _ hs) input
+
 /-- the proviso is needed, and the model shows why: under a policy that allows relative URLs, `/%2f}` is
     normalised to `//%7D`, which is refused when it comes back — so the second pass drops the link the
     first pass kept (the known finding `url-reprint-unstable`, here on the model's `net/url`) -/
@@ -650,5 +940,16 @@ example :
     p.validURL b!"/%2f}" = some b!"//%7D" ∧ p.validURL b!"//%7D" = none ∧
     p.sanitizeCore b!"<a href=\"/%2f}\">t</a>" = b!"<a href=\"//%7D\">t</a>" ∧
     p.sanitizeCore (p.sanitizeCore b!"<a href=\"/%2f}\">t</a>") = b!"t" := by decide
+
+/-- a policy of the `LinkSimple` kind at work (a test, not the unbounded claim): the options add `rel` and
+    `target`, the rules would let neither through, and the second pass reproduces the first -/
+example :
+    let p : Policy := { initialized := true, requireParseableURLs := true, requireNoFollow := true,
+                        addTargetBlankToFullyQualifiedLinks := true, allowURLSchemes := [(b!"https", [])],
+                        elsAndAttrs := [(b!"a", [(b!"href", [none])])] }
+    p.sanitizeCore b!"<a href=\"https://a.b/\" rel=\"author\" target=\"x\">t</a>" =
+      b!"<a href=\"https://a.b/\" rel=\"nofollow noopener\" target=\"_blank\">t</a>" ∧
+    p.sanitizeCore (p.sanitizeCore b!"<a href=\"https://a.b/\" rel=\"author\" target=\"x\">t</a>") =
+      p.sanitizeCore b!"<a href=\"https://a.b/\" rel=\"author\" target=\"x\">t</a>" := by decide
 
 end BM.Props
